@@ -483,6 +483,8 @@ def c07(tier):
     for structured in (False, True):
         scens += rl.small_trees(structured=structured)
     scens.append(rl.sized_tree("sized-10k", 10000))
+    # the statement at the top of the file and a long tail after it (one tail write larger than everything before)
+    scens.append(rl.Scenario("long-tail", {"f1.rs": [S(11)], "f2.rs": [S(21, ref=2)]}, pad=120000, pad_mode="tail"))
     if tier == "thorough":
         kinds.append("short")
         scens.append(rl.sized_tree("sized-200k", 200000, nfiles=2))
@@ -515,6 +517,7 @@ def c08(tier):
     for structured in (False, True):
         scens += rl.small_trees(structured=structured)
     scens.append(rl.sized_tree("sized-40k", 40000))
+    scens.append(rl.Scenario("long-tail", {"f1.rs": [S(11)], "f2.rs": [S(21, ref=2)]}, pad=120000, pad_mode="tail"))
     if tier == "thorough":
         scens.append(rl.sized_tree("sized-300k", 300000, structured=True))
     tmpops = ("tmp.create", "tmp.write", "tmp.rename", "tmp.fsync", "tmp.unlink")
